@@ -22,8 +22,22 @@ func TestMain(m *testing.M) { rt.Main(m) }
 
 type keyT struct{}
 
+// two request labels that are not tags at all: a request that carries no tag, and one whose tag is not a string. Neither
+// is the empty tag "": the bundled matchers and the default lookup function treat them as "matches nothing" / unknown.
+const (
+	untagged  = "\x00untagged"
+	nonString = "\x00non-string"
+)
+
 func ctxKey(k string) context.Context {
 	c := context.WithValue(context.Background(), keyT{}, k)
+	switch k {
+	case untagged:
+		return c
+	case nonString:
+		c = context.WithValue(c, matchers.LookupPartitionContextKey, 42)
+		return context.WithValue(c, matchers.StringPredicateContextKey, []byte("a"))
+	}
 	c = context.WithValue(c, matchers.LookupPartitionContextKey, k)
 	return context.WithValue(c, matchers.StringPredicateContextKey, k)
 }
@@ -91,7 +105,7 @@ func genFrac(r *rand.Rand, dyadic bool, remaining *int) (int, int) {
 	return n, den
 }
 
-var allKeys = []string{"a", "b", "c", "d", "e", "zz", "", "A", "B", "\u0130"} // U+0130: an upper-case letter whose lower-case form is longer in UTF-8
+var allKeys = []string{"a", "b", "c", "d", "e", "zz", "", "A", "B", "\u0130", untagged, nonString} // U+0130: an upper-case letter whose lower-case form is longer in UTF-8
 
 func build(r *rand.Rand) (*env, rt.J) {
 	e := &env{m: &model{}, lparts: map[*part]*strategy.LookupPartition{}, pparts: map[*part]*strategy.PredicatePartition{},
@@ -185,7 +199,7 @@ func (e *env) newPred(r *rand.Rand, p *part) *strategy.PredicatePartition {
 	set := map[string]bool{}
 	var f func(context.Context) bool
 	if r.IntN(3) == 0 { // the bundled string matcher, both flavours, patterns in either case
-		k := []string{"a", "b", "c", "A", "B", "\u0130"}[r.IntN(6)]
+		k := []string{"a", "b", "c", "A", "B", "\u0130", ""}[r.IntN(7)] // "": matches the empty tag only, never a missing one
 		if r.IntN(2) == 0 {
 			set[strings.ToLower(k)], set[strings.ToUpper(k)] = true, true
 			f = matchers.StringPredicateMatcher(k, true)
@@ -194,7 +208,7 @@ func (e *env) newPred(r *rand.Rand, p *part) *strategy.PredicatePartition {
 			f = matchers.StringPredicateMatcher(k, false)
 		}
 	} else { // overlapping key sets
-		for _, k := range allKeys {
+		for _, k := range allKeys[:10] {
 			if r.IntN(3) == 0 {
 				set[k] = true
 			}
